@@ -1057,7 +1057,8 @@ def rangeproof_rewind(
     msg = b"\x00" * message_length
     msglen = pointer(c_uint64(len(msg)))
 
-    vbf_out = b"\x00" * 32
+    # a new buffer for every call: a bytes literal expression is one shared constant object
+    vbf_out = bytes(32)
     value_out = pointer(c_uint64(0))
     min_value = pointer(c_uint64(0))
     max_value = pointer(c_uint64(0))
